@@ -906,6 +906,59 @@ def decimal_coincidence_pass(ck, drv, fail, n):
                 ck.mismatch("Lean model and RK4 oracle disagree on a decimal coincidence", {"case": slim(c), "model": ref - off, "rk4": rk})
 
 
+
+def spec_reuse_pass(ck, fail, n):
+    """the JSON route must leave the caller's specification alone: the SAME spec object built twice (fresh `dic` each time) gives
+    the same model — options as named, same value — and the spec is, after each build, equal to a deep copy taken before"""
+    import copy
+
+    from torchtree.core.utils import process_object
+
+    rng = ck.rng
+    done = guard = 0
+    while done < n and guard < 40 * n:
+        guard += 1
+        c = gen_case(rng, max_m=3, n_max=4, allow=("coincide", "rhomid", "modes"))
+        m = len(c["lam"])
+        if c["mode"] == "none" or c["r"] is not None:
+            continue
+        done += 1
+        c.update(short_rho=False, no_rho=False)
+        # every option away from its default at least in some cases
+        c["survival"] = done % 2 == 0
+        c["root_edge"] = done % 3 != 0
+        specs = [("BDSKModel", spec_for(c, 0.5 if done % 4 == 0 else None))]
+        if m == 1 and not c["root_edge"]:
+            specs.append(("BirthDeathModel", {"id": "bd", "type": "BirthDeathModel", "tree_model": tree_json(c), "lambda": P("l", c["lam"]), "mu": P("mu", c["mu"]),
+                                              "psi": P("psi", c["psi"]), "rho": P("rho", c["rho"]), "origin": P("origin", [c["times"][-1]]),
+                                              "survival": c["survival"]}))
+        for cls, spec in specs:
+            before = copy.deepcopy(spec)
+            seen = []
+            rp = {"case": slim(c), "spec": before, "class": cls}
+            try:
+                for build_no in (1, 2, 3):
+                    mdl = process_object(spec, {})
+                    v = mdl()
+                    opts = {k: getattr(mdl, k) for k in ("survival", "relative_times", "origin_is_root_edge") if hasattr(mdl, k)}
+                    seen.append((bits(v.reshape(()).item()), opts))
+                    ck.case(("spec-reuse", done, cls, build_no), nontrivial=True, bucket=f"spec-reuse/{cls}")
+                    if spec != before:
+                        gone = sorted(set(before) - set(spec))
+                        fail(f"{cls}:from_json-mutates-spec", f"{cls}.from_json changes the specification it is given: after build {build_no} "
+                             + (f"the keys {gone} are gone" if gone else "its content differs") + " (the caller's dict, e.g. one template reused for several models)",
+                             dict(rp, after=copy.deepcopy(spec)))
+                        break
+            except Exception as e:
+                fail(f"{cls}:spec-reuse-raises:{type(e).__name__}", f"{cls}: building the same specification object again raises {e!r}"[:220], rp)
+                continue
+            for i, (b_, o_) in enumerate(seen[1:], start=2):
+                if (b_, o_) != seen[0]:
+                    fail(f"{cls}:second-build-differs", f"{cls} built {i} times from the SAME specification object: build 1 holds {seen[0][1]} and evaluates to "
+                         f"{h2f(seen[0][0])!r}, build {i} holds {o_} and evaluates to {h2f(b_)!r}", dict(rp, builds=[[h2f(x), y] for x, y in seen]))
+                    break
+
+
 # ============================================================================ tensor constructors without a dtype
 CTORS = ("ones", "zeros", "tensor", "arange", "full", "eye", "empty", "linspace", "as_tensor", "ones_like", "zeros_like", "full_like")
 REACHABLE = ("_call", "__init__", "from_json", "log_p", "log_q", "log_prob", "epidemiology_to_birth_death", "_sample_shape")
@@ -1079,6 +1132,7 @@ def run(ck: Check):
         decimal_coincidence_pass(ck, drv, fail, 60 if th else 15)
         ordering_pass(ck, drv, fail, 12 if th else 4)
         products_pass(ck, drv, fail, 8 if th else 2)
+        spec_reuse_pass(ck, fail, 12 if th else 5)
         routes_pass(ck, fail, 12 if th else 5)
         with regime("A"):
             routes_pass(ck, fail, 4 if th else 2)
